@@ -202,7 +202,7 @@ theorem ops_refine_without_mapfile (ops : List Op)
 /-- `mapfile -t a <<< z; unset a`: the array made by `mapfile` is not `IsSet()`, so the `unset`
     builtin leaves it alone; bash unsets it. -/
 theorem mapfile_unset_counterexample :
-    runOps Var.zero [.mapfile [[122]], .unsetAll] = .ok ⟨.indexed, false, [], ⟨[[122]], none⟩⟩ ∧
+    runOps Var.zero [.mapfile [[122]], .unsetAll] = .ok ⟨.indexed, false, [], ⟨[[122]], none⟩, false⟩ ∧
     specRun SVar.unset [.mapfile [[122]], .unsetAll] = SVar.unset := by
   decide
 
@@ -227,15 +227,15 @@ def bR : Str := [114]
 /-- `a=(x y); a[1]+=z` is `(x yz)`; on a sparse array `a=([3]=x); a[3]+=z; a[-1]+=y; a[1]+=q`. -/
 theorem elem_append_fixed :
     runOps Var.zero [.assign [.plain bX, .plain bY], .appElem 1 bZ]
-      = .ok ⟨.indexed, true, [], ⟨[bX, bY ++ bZ], none⟩⟩ ∧
+      = .ok ⟨.indexed, true, [], ⟨[bX, bY ++ bZ], none⟩, false⟩ ∧
     runOps Var.zero [.assign [.at 3 bX], .appElem 3 bZ, .appElem (-1) bY, .appElem 1 bQ]
-      = .ok ⟨.indexed, true, [], ⟨[bQ, bX ++ bZ ++ bY], some [1, 3]⟩⟩ := by
+      = .ok ⟨.indexed, true, [], ⟨[bQ, bX ++ bZ ++ bY], some [1, 3]⟩, false⟩ := by
   decide
 
 /-- `a=(x y [-5]=q r)`: the bad subscript only skips its element: `(x y r)`, as in bash. -/
 theorem literal_bad_subscript_fixed :
     runOps Var.zero [.assign [.plain bX, .plain bY, .at (-5) bQ, .plain bR]]
-      = .ok ⟨.indexed, true, [], ⟨[bX, bY, bR], none⟩⟩ ∧
+      = .ok ⟨.indexed, true, [], ⟨[bX, bY, bR], none⟩, false⟩ ∧
     specRun SVar.unset [.assign [.plain bX, .plain bY, .at (-5) bQ, .plain bR]]
       = ⟨.indexed, [(0, bX), (1, bY), (2, bR)]⟩ := by
   decide
@@ -262,21 +262,21 @@ def demoOps : List Op :=
 
 example : runOK Var.zero demoOps = true := by decide
 example : runOps Var.zero demoOps
-    = .ok ⟨.indexed, true, [], ⟨[bY, bQ ++ bR, bZ], some [0, 1, 4]⟩⟩ := by decide
+    = .ok ⟨.indexed, true, [], ⟨[bY, bQ ++ bR, bZ], some [0, 1, 4]⟩, false⟩ := by decide
 example : specRun SVar.unset demoOps = ⟨.indexed, [(0, bY), (1, bQ ++ bR), (4, bZ)]⟩ := by decide
 /-- `read -a` / `mapfile` replace a sparse array wholesale: indices restart at 0. -/
 example : runOps Var.zero [.assign [.at 3 bX, .at 7 bY], .readArr [bQ, bR, bZ], .unsetElem 1]
-    = .ok ⟨.indexed, true, [], ⟨[bQ, bZ], some [0, 2]⟩⟩ := by decide
+    = .ok ⟨.indexed, true, [], ⟨[bQ, bZ], some [0, 2]⟩, false⟩ := by decide
 example : runOK Var.zero [.assign [.at 3 bX], .mapfile [bQ, bR], .setElem 5 bZ, .unsetAll] = true := by
   decide
 /-- Scalars: `s=x; s+=y; unset 's[-1]'` (refused, like bash); `unset 's[0]'` unsets. -/
 example : specRun SVar.unset [.setStr bX, .appStr bY, .unsetElem (-1)] = ⟨.str, [(0, bX ++ bY)]⟩ := by decide
 example : runOps Var.zero [.setStr bX, .appStr bY, .unsetElem (-1), .unsetElem 0] = .ok Var.zero := by decide
 example : runOps Var.zero (demoOps.take 4)
-    = .ok ⟨.indexed, true, [], ⟨[bZ, bY, bR], some [0, 5, 7]⟩⟩ := by decide
+    = .ok ⟨.indexed, true, [], ⟨[bZ, bY, bR], some [0, 5, 7]⟩, false⟩ := by decide
 /-- A scalar becomes a one-element array: `s=x; s+=(y)`. -/
 example : runOps Var.zero [.setStr bX, .append [.plain bY]]
-    = .ok ⟨.indexed, true, bX, ⟨[bX, bY], none⟩⟩ := by decide
+    = .ok ⟨.indexed, true, bX, ⟨[bX, bY], none⟩, false⟩ := by decide
 /-- Sparse slicing: `a=([2]=x [5]=y [9]=z); ${a[@]: -5:2}` = elements from index 5: `y z`. -/
 example : sliceElems ⟨[bX, bY, bZ], some [2, 5, 9]⟩ (some (-5)) (some 2) = .ok [bY, bZ] := by decide
 example : specSlice [(2, bX), (5, bY), (9, bZ)] (some (-5)) (some 2) = some [bY, bZ] := by decide
